@@ -5,7 +5,7 @@
 (* registrations from it, so TLA+ is the single source of truth.                *)
 EXTENDS Naturals, Sequences, FiniteSets, TLC, Functions
 
-Clients == {"cw", "cx", "cp", "cj", "cs", "cd"}
+Clients == {"cw", "cx", "cp", "cj", "cs", "cd", "cn"}
 
 \* auth: basic | post | none | pkjwt ; app: web | native | ua ; at: opaque | jwt
 Reg == [c \in Clients |->
@@ -20,20 +20,26 @@ Reg == [c \in Clients |->
     [] c = "cs" -> [auth |-> "basic", app |-> "web",    grants |-> {"cc","te"},
                     rtypes |-> {}, uris |-> {}, postLogout |-> {}, at |-> "jwt"]
     [] c = "cd" -> [auth |-> "basic", app |-> "web",    grants |-> {"device"},
-                    rtypes |-> {}, uris |-> {}, postLogout |-> {}, at |-> "opaque"]]
+                    rtypes |-> {}, uris |-> {}, postLogout |-> {}, at |-> "opaque"]
+    \* a native application that nevertheless is registered with a secret (application type and auth method are independent)
+    [] c = "cn" -> [auth |-> "basic", app |-> "native", grants |-> {"code","refresh","device"},
+                    rtypes |-> {"code"}, uris |-> {"ucn"}, postLogout |-> {}, at |-> "opaque"]]
 
 Users  == {"u1", "u2"}
 \* abstract URI names; "evil" is registered for nobody, "ucw" etc. belong to one client each
-URIs   == {"ucw", "ucw2", "ucx", "ucp", "ucj", "evil"}
+URIs   == {"ucw", "ucw2", "ucx", "ucp", "ucj", "ucn", "evil"}
 ScopeNames == {"openid", "profile", "email", "offline_access"}
 
 IsConfidential(c) == Reg[c].auth # "none"
 
 \* Credential presentations. kind: none | basic | post | assertion ; secret: right | wrong ;
 \* key: own | foreign (assertion naming the caller as issuer but signed with another client's key)
-Creds == [kind : {"none"}, secret : {"none"}, key : {"none"}]
-   \cup  [kind : {"basic", "post"}, secret : {"right", "wrong"}, key : {"none"}]
-   \cup  [kind : {"assertion"}, secret : {"none"}, key : {"own", "foreign"}]
+\* alias: "" or a second client id sent as form parameter client_id next to the Basic credentials of the caller
+\* (a request that names two clients; the authenticated one is the caller)
+Creds == [kind : {"none"}, secret : {"none"}, key : {"none"}, alias : {""}]
+   \cup  [kind : {"basic", "post"}, secret : {"right", "wrong"}, key : {"none"}, alias : {""}]
+   \cup  [kind : {"basic"}, secret : {"right"}, key : {"none"}, alias : {"cw", "cx"}]
+   \cup  [kind : {"assertion"}, secret : {"none"}, key : {"own", "foreign"}, alias : {""}]
 
 \* "authenticated as - or, for public clients, identifies as" (C04, C07): the proof fits the registration
 AuthOK(c, cred) ==
